@@ -2,6 +2,9 @@
 
     Input:  mode p0 op*      mode 0: fault-free (predicted), mode 1: with connection faults ([96]:
                              not predicted, the harness oracle judges alone); p0 = initial payload
+                             modes 2, 3: programs with per-receiver item size limits and watch::forward
+                             (harness/src/watch_size.rs; outside Rch/Watch.v).  Mode 2 (every operation at
+                             quiescence) is answered by Run/RunWatchSize.v, mode 3 is [96], oracle only
       0 p        Sender::send(p)                        -> 1 Ok / 0 Err
       1 p        Sender::send_modify(p)
       2          drop the sender
@@ -52,6 +55,7 @@
          1 i+1 p code       live: current value, state of changed() (9: seen value unknown)
     A barrier after which the model is not quiescent (fuel exhausted; never observed) prints 95. *)
 From Remoc Require Import Lib.Base Rch.Watch.
+From Remoc Require Run.RunWatchSize.
 
 Record rstate := mkRS {
   rst : state;
@@ -267,5 +271,7 @@ Definition run_watch (inp : list N) : list N :=
   | 0 :: p :: ops =>
       run_ops (S (length ops)) (mkRS (init p) false false [Some 0] [0] [true]) ops
   | 1 :: _ => [96]
+  | 2 :: r => RunWatchSize.run_watch_size r
+  | 3 :: _ => [96]
   | _ => [98]
   end.
